@@ -231,7 +231,7 @@ export function atomNode([src, ctors, inh]) {
 export function randomTypeExpr(rng, depth, out) {
   const pickAtom = () => atomNode(rng.pick(ATOMS));
   if (depth === 0) return pickAtom();
-  const op = rng.pick(['atom', 'union', 'union', 'alias', 'paren', 'tupleIndex', 'arrayIndex', 'propIndex', 'nonNullable', 'nonNullableNullFirst', 'aliasOfUnion', 'interfaceIndex', 'interfaceMethodIndex', 'typeLitMethodIndex', 'tupleNumberIndex']);
+  const op = rng.pick(['atom', 'union', 'union', 'alias', 'paren', 'tupleIndex', 'arrayIndex', 'propIndex', 'nonNullable', 'nonNullableNullFirst', 'aliasOfUnion', 'interfaceIndex', 'interfaceMethodIndex', 'typeLitMethodIndex', 'tupleNumberIndex', 'typeLitQuotedIndex', 'quotedKeyUnionIndex', 'keyAliasIndex']);
   const decl = (t) => out.decls.push({ text: t });
   const sub = () => randomTypeExpr(rng, depth - 1, out);
   const union = (a, b) => ({ ctors: [...a.ctors, ...b.ctors.filter((c) => !a.ctors.includes(c))], inhabitants: [...a.inhabitants, ...b.inhabitants] });
@@ -253,6 +253,11 @@ export function randomTypeExpr(rng, depth, out) {
     }
     case 'interfaceMethodIndex': { const a = sub(); const n = fresh('X'); decl(`interface ${n} { k: ${a.src}; load(): void; 'm-m'(x: number): string }`); const which = rng.pick(['load', 'm-m']); return { src: `${n}["${which}"]`, ctors: ['Function'], inhabitants: [{ js: '(() => {})', atom: 'method-index' }], ops: ['interfaceMethodIndex'] }; }
     case 'typeLitMethodIndex': { const a = sub(); return { src: `{ k: ${a.src}; run(): void }["run"]`, ctors: ['Function'], inhabitants: [{ js: '(function () {})', atom: 'method-index' }], ops: ['typeLitMethodIndex'] }; }
+    // members declared with quoted keys, selected by a literal, a union of literals, or an alias of such a union
+    case 'typeLitQuotedIndex': { const a = sub(), b = sub(); const viaAlias = rng.bool(); const lit = `{ 'aria-label': ${a.src}; "data-id": ${b.src}; plain: boolean }`; const n = viaAlias ? fresh('Q') : null; if (n) decl(`type ${n} = ${lit};`); const which = rng.pick(['aria-label', 'data-id']); const r = which === 'aria-label' ? a : b; return { ...r, src: `${n ?? lit}["${which}"]`, ops: ['typeLitQuotedIndex', ...r.ops] }; }
+    // (keys listed in the members' declaration order: which of the two orders counts is not decided by the statement)
+    case 'quotedKeyUnionIndex': { const a = sub(), b = sub(); const n = fresh('Q'); const iface = rng.bool(); decl(iface ? `interface ${n} { 'aria-label': ${a.src}; plain: ${b.src}; other: symbol }` : `type ${n} = { 'aria-label': ${a.src}; plain: ${b.src}; other: symbol };`); return { src: `${n}["aria-label" | "plain"]`, ...union(a, b), ops: ['quotedKeyUnionIndex', ...a.ops, ...b.ops] }; }
+    case 'keyAliasIndex': { const a = sub(), b = sub(); const n = fresh('Q'), k = fresh('K'); decl(`type ${n} = { plain: ${a.src}; 'data-id': ${b.src}; other: symbol };`); decl(`type ${k} = 'plain' | 'data-id';`); return { src: `${n}[${k}]`, ...union(a, b), ops: ['keyAliasIndex', ...a.ops, ...b.ops] }; }
     case 'nonNullable': { const a = sub(); return { src: `NonNullable<${a.src} | null>`, ctors: a.ctors.filter((c) => c !== null), inhabitants: a.inhabitants.filter((x) => x.js !== 'null'), ops: ['nonNullable', ...a.ops] }; }
     default: throw new Error(op);
   }
